@@ -9,9 +9,9 @@ from ref import galerkin as G, kvs as KV
 from props.c09_util import RTOL, Lib, cmp, dedupe, axis_objects, dense, scaled_min_eig
 
 SYM_TOL = 1e-13      # relative; np.dot(f, (f*w).T) is symmetric only up to rounding (unchanged tree: <= 5e-16)
-SUM_TOL = 1e-12      # relative; sum(M) vs length (unchanged tree: <= 2e-15)
-KER_TOL = 1e-11      # |K 1|_max <= KER_TOL * max|K| (unchanged tree: <= 2e-14)
-EIG_MIN = 1e-9       # smallest eigenvalue of the diagonally scaled matrix (unchanged tree: >= 4e-6 over degrees <= 6)
+SUM_TOL = 1e-12      # relative; sum(M) vs length (unchanged tree: <= 8e-16)
+KER_TOL = 1e-11      # |K 1|_max <= KER_TOL * max|K| (unchanged tree: <= 4e-16)
+EIG_MIN = 1e-9       # smallest eigenvalue of the diagonally scaled matrix (unchanged tree: >= 2.3e-3 over degrees <= 6)
 MAXW = 3             # weight monomials x^0 .. x^3
 
 
@@ -181,41 +181,44 @@ def legal_quad(mode, br1, br2):
 
 
 def check_asym(case, stats=None):
+    """case["quads"]: list of quadrature-grid modes, all checked against the same exact reference"""
     from pyiga import assemble
     kv1, R1, br1 = axis_objects(case["kv1"])
     kv2, R2, br2 = axis_objects(case["kv2"])
     p1, p2 = R1.p, R2.p
-    mode = case["quad"]
     probs = []
     lib = Lib(probs)
-    assert legal_quad(mode, br1, br2)
-    qg = quad_grid(mode, br1, br2)
-    kw = {} if qg is None else {"quadgrid": np.array(qg, dtype=float)}
     I = G.PPInt(G.merged_breaks(br1, br2), max(p1 + p2, 1))
     try:
+        grids = []
+        for mode in case["quads"]:
+            assert legal_quad(mode, br1, br2)
+            qg = quad_grid(mode, br1, br2)
+            grids.append((mode, {} if qg is None else {"quadgrid": np.array(qg, dtype=float)}))
         for du in range(p1 + 1):
             for dv in range(p2 + 1):
                 ref = G.fl(I.biform(R1, du, R2, dv))       # rows: test space kv2 (dv), columns: trial space kv1 (du)
-                tag = "kv1=%s kv2=%s du=%d dv=%d quadgrid=%s" % (case["kv1"], case["kv2"], du, dv, mode)
-                A = lib("asym", "bsp_mixed_deriv_biform_1d_asym(%s)" % tag, assemble.bsp_mixed_deriv_biform_1d_asym, kv1, kv2, du, dv, **kw)
-                if A is None:
-                    continue
-                if A.shape != (R2.n, R1.n):
-                    probs.append(("asym:shape", "%s: shape %s, documented kv2.numdofs x kv1.numdofs = %s" % (tag, A.shape, (R2.n, R1.n))))
-                    continue
-                cmp("bsp_mixed_deriv_biform_1d_asym(%s)" % tag, A, ref, probs, "asym:value:" + ("default" if qg is None else "quadgrid"),
-                    stats=stats)
-                if case.get("nqp_plus"):
-                    nq = default_nqp(p1, p2, du, dv) + 1
-                    A = lib("asym", "bsp_mixed_deriv_biform_1d_asym(%s, nqp+1)" % tag, assemble.bsp_mixed_deriv_biform_1d_asym,
-                            kv1, kv2, du, dv, nqp=nq, **kw)
-                    cmp("bsp_mixed_deriv_biform_1d_asym(%s, nqp=default+1)" % tag, A, ref, probs, "asym:value:nqp+1", stats=stats)
-                if (du, dv) == (0, 0):
-                    A = lib("asym", "bsp_mass_1d_asym(%s)" % tag, assemble.bsp_mass_1d_asym, kv1, kv2, **kw)
-                    cmp("bsp_mass_1d_asym(%s)" % tag, A, ref, probs, "asym:mass", stats=stats)
-                if (du, dv) == (1, 1):
-                    A = lib("asym", "bsp_stiffness_1d_asym(%s)" % tag, assemble.bsp_stiffness_1d_asym, kv1, kv2, **kw)
-                    cmp("bsp_stiffness_1d_asym(%s)" % tag, A, ref, probs, "asym:stiffness", stats=stats)
+                for mode, kw in grids:
+                    tag = "kv1=%s kv2=%s du=%d dv=%d quadgrid=%s" % (case["kv1"], case["kv2"], du, dv, mode)
+                    A = lib("asym", "bsp_mixed_deriv_biform_1d_asym(%s)" % tag, assemble.bsp_mixed_deriv_biform_1d_asym, kv1, kv2, du, dv, **kw)
+                    if A is None:
+                        continue
+                    if A.shape != (R2.n, R1.n):
+                        probs.append(("asym:shape", "%s: shape %s, documented kv2.numdofs x kv1.numdofs = %s" % (tag, A.shape, (R2.n, R1.n))))
+                        continue
+                    cmp("bsp_mixed_deriv_biform_1d_asym(%s)" % tag, A, ref, probs, "asym:value:" + ("quadgrid" if kw else "default"),
+                        stats=stats)
+                    if case.get("nqp_plus"):
+                        nq = default_nqp(p1, p2, du, dv) + 1
+                        A = lib("asym", "bsp_mixed_deriv_biform_1d_asym(%s, nqp+1)" % tag, assemble.bsp_mixed_deriv_biform_1d_asym,
+                                kv1, kv2, du, dv, nqp=nq, **kw)
+                        cmp("bsp_mixed_deriv_biform_1d_asym(%s, nqp=default+1)" % tag, A, ref, probs, "asym:value:nqp+1", stats=stats)
+                    if (du, dv) == (0, 0):
+                        A = lib("asym", "bsp_mass_1d_asym(%s)" % tag, assemble.bsp_mass_1d_asym, kv1, kv2, **kw)
+                        cmp("bsp_mass_1d_asym(%s)" % tag, A, ref, probs, "asym:mass", stats=stats)
+                    if (du, dv) == (1, 1):
+                        A = lib("asym", "bsp_stiffness_1d_asym(%s)" % tag, assemble.bsp_stiffness_1d_asym, kv1, kv2, **kw)
+                        cmp("bsp_stiffness_1d_asym(%s)" % tag, A, ref, probs, "asym:stiffness", stats=stats)
     except Exception as e:
         probs.append(("asym:exception:%s" % type(e).__name__, "asymmetric 1D routine raised %r" % (e,)))
     return dedupe(probs), lib.calls
